@@ -3,6 +3,7 @@ import IsoMdl.Model.Wire
 import IsoMdl.Model.WireSchemas
 import IsoMdl.Lemmas.Schema
 import IsoMdl.Generated.WireStructs
+import IsoMdl.Generated.Tables
 /-
 C16 — Wire structures round-trip and have a stable encoding.
 Layer 1 (all values of the CBOR data model): `dec (enc v) = v`, `enc` injective, fixed point.
@@ -185,6 +186,30 @@ theorem C16_wire_fields_match_source :
     Generated.wireStructs.all (fun ns => match all.find? (fun p => asciiBytes p.1 == ns.1) with
       | some p => schemaSig p.2 == some ns.2
       | none => false) = true := by decide +kernel
+
+/-- THE CURVE REGISTRIES ARE THE SOURCE'S: the model's curve ↦ integer maps (used by every COSE_Key
+theorem here and in C18) are, row by row and in source order, the `impl From<_> for ciborium::Value`
+and `impl TryFrom<i128> for _` tables re-extracted from cose_key.rs on every run; consequently
+reading back what was written gives the same curve, for every curve, and nothing else is read. -/
+theorem C16_curve_tables_match_source :
+    Generated.curveToInt =
+      (EC2Curve.all.map fun c => ("EC2Curve".toList.map (·.toNat), c.name.toList.map (·.toNat), c.toNat)) ++
+      (OKPCurve.all.map fun c => ("OKPCurve".toList.map (·.toNat), c.name.toList.map (·.toNat), c.toNat)) ∧
+    Generated.curveOfInt =
+      (EC2Curve.all.map fun c => ("EC2Curve".toList.map (·.toNat), c.toNat, c.name.toList.map (·.toNat))) ++
+      (OKPCurve.all.map fun c => ("OKPCurve".toList.map (·.toNat), c.toNat, c.name.toList.map (·.toNat))) ∧
+    (∀ c : EC2Curve, c ∈ EC2Curve.all ∧ EC2Curve.ofNat? c.toNat = some c) ∧
+    (∀ c : OKPCurve, c ∈ OKPCurve.all ∧ OKPCurve.ofNat? c.toNat = some c) ∧
+    (∀ n c, EC2Curve.ofNat? n = some c → c.toNat = n) ∧ (∀ n c, OKPCurve.ofNat? n = some c → c.toNat = n) := by
+  refine ⟨by decide +kernel, by decide +kernel, fun c => by cases c <;> decide, fun c => by cases c <;> decide, ?_, ?_⟩
+  · intro n c h
+    unfold EC2Curve.ofNat? at h
+    repeat' split at h
+    all_goals first | (cases h; subst_vars; rfl) | cases h
+  · intro n c h
+    unfold OKPCurve.ofNat? at h
+    repeat' split at h
+    all_goals first | (cases h; subst_vars; rfl) | cases h
 
 theorem C16_wire_structs_count : Generated.wireStructs.length = 13 := by decide +kernel
 
